@@ -204,6 +204,13 @@ def r127(an: Analysis, rep):
     rep.add("R12.7", "process-wide setters examined", True, "code_data/", f"{n} call(s) of {len(PROCESS_SETTERS)} known process-wide setters in the API closures", nontrivial=False)
 
 
+def _union_parts(tg, t):
+    if t is None:
+        return []
+    u = tg.unfold_rec(t)
+    return list(u[1]) if u[0] == "union" else [u]
+
+
 def r128(an: Analysis, rep):
     """CPython's code constructor modifies tuples nested in co_consts IN PLACE (Objects/codeobject.c intern_string_constants: a string is
     replaced by its interned copy, a frozenset holding strings by a new frozenset). A tuple of the argument handed to CodeType(...) as (part
@@ -222,6 +229,7 @@ def r128(an: Analysis, rep):
             raise AnalysisError("CodeType(...) arity not recognised")
         cv = it.value_at(call.args[slots.index("consts")])
         own = []
+        own_fs = []
         for a in it.elements(cv):
             if a[0] != "src":
                 continue
@@ -229,8 +237,20 @@ def r128(an: Analysis, rep):
             parts = list(t[1]) if t[0] == "union" else [t]
             if any(an.tg.unfold_rec(x)[0] in ("tuple", "tuplefix") for x in parts):
                 own.append(a)
+                continue
+            # a frozenset of the argument whose members can be tuples: the set itself is replaced by a new one, the member tuples are interned in place
+            for x in parts:
+                ux = an.tg.unfold_rec(x)
+                if ux[0] in ("frozenset", "set") and any(an.tg.unfold_rec(y)[0] in ("tuple", "tuplefix") for y in _union_parts(an.tg, ux[1] if len(ux) > 1 else None)):
+                    own_fs.append(a)
+                    break
         rep.add("R12.8", f"{f.qual}::constants handed to CodeType are not the argument's own tuples", not own, loc(f.module, call),
                 "every tuple among the constants is built during the call" if not own else
                 f"the constants handed to CodeType(...) include {fmt_atom(own[0])}, a tuple that belongs to the CodeData being encoded: CPython interns the strings inside constant tuples "
                 f"in place and replaces a frozenset holding strings by a new one, so to_code() changes its argument (afterwards to_json_data() lists the frozenset in another order)",
+                config=vname(V))
+        rep.add("R12.8", f"{f.qual}::no frozenset of the argument with tuple members is handed to CodeType", not own_fs, loc(f.module, call),
+                "every frozenset among the constants that can hold tuples is rebuilt during the call" if not own_fs else
+                f"the constants handed to CodeType(...) include {fmt_atom(own_fs[0])}, a frozenset that belongs to the CodeData being encoded and whose members can be tuples: CPython makes a new "
+                f"frozenset but interns the strings of the member tuples in place, so to_code() replaces items of tuples owned by its argument (`x in {{('alpha', 1), ('beta', 2)}}` loaded from JSON)",
                 config=vname(V))
